@@ -110,7 +110,8 @@ func c03Line(e *Env) string {
 	case 7: // almost valid shapes
 		e.Fault("almost-valid")
 		return []string{"a:1|c|@", "a:1|c|@0", "a:1|c|@-1", "a:1|c|@nan", "a:1|c|@1e999", "a:1e999|g", "a:-inf|g", "a:0x10|c", "a:1|", "a:1||", "a:1|c|", "a:1|c||", "a:1|c|#", "a:1|c|#,",
-			"a:1|c|#,,|@0.5", ":|", "a::1|c", "a:1|cc", "a:1|msx", "_e", "_e{", "_e{1", "_e{1,", "_e{1,1", "_e{1,1}", "_e{1,1}:", "_e{0,0}:", "_e{0,0}:|", "_e{1,1}:a", "_e{1,1}:a|", "_e{1,1}:a|b|", "_e{1,1}:a|b|d:", "_e{1,1}:a|b|p:", "_e{1,1}:a|b|#", "_", "__e{1,1}:a|b"}[e.Draw(36)]
+			"a:1|c|#,,|@0.5", ":|", "a::1|c", "a:1|cc", "a:1|msx", "_e", "_e{", "_e{1", "_e{1,", "_e{1,1", "_e{1,1}", "_e{1,1}:", "_e{0,0}:", "_e{0,0}:|", "_e{1,1}:a", "_e{1,1}:a|", "_e{1,1}:a|b|", "_e{1,1}:a|b|d:", "_e{1,1}:a|b|p:", "_e{1,1}:a|b|#", "_", "__e{1,1}:a|b",
+			"_sc|db.up|0|h:web1|#env:prod|m:all good", "_sc|", "_sc", "_s", "_sx|a|0", "_sc|a|9|d:1|#t"}[e.Draw(42)]
 	default: // random bytes
 		e.Fault("random-bytes")
 		n := 1 + e.Draw(40)
@@ -305,6 +306,29 @@ func c03Body(e *Env) ([]byte, string, bool) {
 	case 4:
 		raw = nil
 		valid = false
+	}
+	if e.Chance(1, 10) {
+		// bytes that are lz4 framing, hand-made: a skippable frame whose declared size is a boundary value,
+		// optionally followed by a proper frame; a frame header with every flag set
+		var b bytes.Buffer
+		if e.Bool() {
+			b.Write([]byte{byte(0x50 + e.Draw(16)), 0x2A, 0x4D, 0x18})
+			sz := []uint32{0, 3, 8, 0x7FFFFFFF, 0x80000000, 0xFFFFFFF7, 0xFFFFFFF8, 0xFFFFFFF9, 0xFFFFFFFF}[e.Draw(9)]
+			b.Write([]byte{byte(sz), byte(sz >> 8), byte(sz >> 16), byte(sz >> 24)})
+			b.Write([]byte("xyz")[:e.Draw(4)])
+		} else {
+			b.Write([]byte{0x04, 0x22, 0x4D, 0x18, byte(e.Draw(256)), byte(e.Draw(256)), byte(e.Draw(256))})
+			for i, n := 0, e.Draw(24); i < n; i++ {
+				b.WriteByte([]byte{0, 0xff, 0x80, 1, 4}[e.Draw(5)])
+			}
+		}
+		if e.Bool() {
+			w := lz4.NewWriter(&b)
+			w.Write(raw)
+			w.Close()
+		}
+		e.Fault("lz4-hand-made-framing")
+		return b.Bytes(), "lz4", false
 	}
 	enc := []string{"", "identity", "deflate", "lz4", "br", strings.Repeat("x", 100)}[e.Draw(6)]
 	body := raw
